@@ -184,6 +184,7 @@ pub fn order(v: &View, vd: &mut Verdict, prop: &str) -> (usize, usize) {
 pub fn check(v: &View, vd: &mut Verdict) {
     structural(v, vd, "C01");
     let (pairs, cross) = order(v, vd, "C01");
+    super::c04::abandoned_accepted(v, vd, "C01");
     if pairs > 0 {
         vd.class("ordered_pair");
     }
